@@ -21,8 +21,16 @@ def single_preemptions(run_and_judge, n_lines, stride=1, offset=0, max_alts=8, m
     soon as the other one blocks); order 0/1 = default policy at free choices: oldest / newest runnable thread first.
     `n_lines` is the traced length of the unpreempted run under the same `order`."""
     runs, viol, inconclusive = 0, [], 0
-    for line in range(1 + offset % max(1, stride), n_lines + 1, max(1, stride)):
-        if max_runs is not None and runs >= max_runs:
+    from . import detsched
+
+    # lines of functions the reference tree does not have (new code) are always tried, whatever the stride
+    novel = [ln for ln in detsched.LAST.get("novel", ()) if ln <= n_lines]
+    if len(novel) > 120:
+        novel = novel[:: -(-len(novel) // 120)]
+    strided = range(1 + offset % max(1, stride), n_lines + 1, max(1, stride))
+    lines = novel + [ln for ln in strided if ln not in set(novel)] if stride > 1 else list(strided)
+    for line in lines:
+        if max_runs is not None and runs >= max_runs + 8 * len(novel):
             break  # case-count bound of the quick tier (deterministic); the thorough tier has none
         for index in range(max_alts):
             n_c = None
